@@ -460,9 +460,44 @@ def r10(ctx, facts):
                        " (several definitions)" if multi else ""), k.span)
 
 
+def r11(ctx, facts):
+    """`the session keeps working through the remaining connections`: when the shard a request asks for has no connection, the
+    pool hands out a connection of ANY other shard - the fallback visits every shard of the node. A range over the shards that is
+    shortened by arithmetic (`1..nr_shards - 1`) leaves a shard out; if the only live connections are there, the helper reaches its
+    `unreachable!` although a healthy connection exists (seed C10-l)."""
+    from ..util import field_slice
+    r = ctx.rule("R11", "connection_for_shard_helper's fallback ranges over all shards of the node (no shard is left out by arithmetic on the bound)", floor=1)
+    b = facts.one(r"^scylla::network::connection_pool::NodeConnectionPool::connection_for_shard_helper$")
+    n = 0
+    for bb in sorted(b.live_blocks):
+        for st in b.stmts(bb):
+            if not (st[0] == "A" and st[2][0] == "agg" and st[2][1][0] == "adt" and st[2][1][1] in ("core::ops::range::Range", "core::ops::range::RangeInclusive")):
+                continue
+            fields = st[2][1][4] or []
+            if "end" not in fields:
+                continue
+            end = st[2][2][fields.index("end")]
+            start = st[2][2][fields.index("start")] if "start" in fields else None
+            if end[0] not in ("c", "m"):
+                continue
+            seen, calls, bins = field_slice(b, end)
+            names = {(c.name or c.decl or "?").split("::")[-1] for c in calls}
+            over_shards = "get" in names and any("NonZero" in b.local_ty(l) or "nr_shards" in (b.local_name(l) or "") for l, _ in seen)
+            if not over_shards or "len" in names:
+                continue           # a range over something else (indices of the candidate list)
+            n += 1
+            start_ok = start is None or (start[0] == "k" and int(start[3]) in (0, 1))
+            r.instance("fallback-covers-every-shard#%d" % n, not bins and start_ok,
+                       "the fallback over the node's shards runs over a range whose bound is computed (%s) or does not start at the first shard: some shard is never "
+                       "probed, and a request finds no connection although another shard has one" % ([x[1] for x in bins] or "start"), b.stmt_span(st))
+    if n == 0:
+        r.note("no range over the shard count in connection_for_shard_helper (another traversal form): rule not applicable to this form")
+        r.instance("fallback-form", True, "no shard range", b.span, nontrivial=False)
+
+
 def check(ctx):
     facts = inline_view(ctx.facts("default"))
-    for fn in (r1, r2_r5, r3, r4, r6, r7, r8, r9, r10):
+    for fn in (r1, r2_r5, r3, r4, r6, r7, r8, r9, r10, r11):
         try:
             fn(ctx, facts)
         except AnchorLost as ex:
